@@ -664,9 +664,12 @@ def run_side_outputs(root, tag, compiler):
             ('stack_usage', ['-fstack-usage'], {}), ('save_temps_obj', ['-save-temps=obj'], {}), ('dependencies_output', [], {'DEPENDENCIES_OUTPUT': 'envdeps.d'}), ('sunpro_dependencies', [], {'SUNPRO_DEPENDENCIES': 'sun.d'})]
     if base == 'gcc': scen += [('aux_info', ['-aux-info', 'protos.txt'], {}), ('dump_tree', ['-fdump-tree-optimized'], {}), ('callgraph_info', ['-fcallgraph-info'], {}), ('opt_record', ['-fsave-optimization-record'], {}), ('dump_rtl', ['-fdump-rtl-expand'], {}), ('dumpbase', ['-fstack-usage', '-dumpbase', 'zz'], {})]
     if base == 'clang': scen += [('opt_record', ['-fsave-optimization-record'], {}), ('serialize_diag', ['--serialize-diagnostics', 'diag.dia'], {}), ('time_trace', ['-ftime-trace'], {})]
+    scen += [('MD_special_object_name', ['-MD'], {}), ('MMD_special_object_name', ['-MMD', '-MP'], {})]
     for name, flags, env in scen:
         w = World(os.path.join(root, 'side_' + name), f'{tag}so{name}', compiler, random.Random(0)); w.keep_outputs = False
-        w.flags = ['-O1', '-Iinc1'] + flags; w.env = dict(env); w.side_names_only = name in ('opt_record', 'time_trace'); w.sc.start()
+        w.flags = ['-O1', '-Iinc1'] + flags; w.env = dict(env); w.side_names_only = name in ('opt_record', 'time_trace')
+        if name.endswith('special_object_name'): w.out = 'o1/a b$c#d.o'      # characters Make treats specially: the .d file must quote them as the compiler does
+        w.sc.start()
         try:
             for i in range(2): w.request(f'side outputs {name} #{i}: {" ".join(flags)} {env if env else ""}', expect_cacheable=False); reqs += 1
             fails += [dict(f, detail=f'side-output scenario {name}: ' + f['detail']) for f in w.fails if f['kind'] not in KNOWN_DEVIATIONS][:1]
